@@ -8,6 +8,7 @@
   `init cfg` to `s`, i.e. every schedule and every timing is covered.
 -/
 import Torf.Lemmas.PipelineLive
+import Torf.Lemmas.PipelineOut
 namespace Torf.C03
 open Torf.Pipeline
 
@@ -32,5 +33,132 @@ theorem C03_threads_done {cfg : Cfg} {s : State} (_hwf : wf cfg = true) (hrf : c
 theorem C03_deadlock_free {cfg : Cfg} {s : State} (hwf : wf cfg = true) (hrf : cfg.refuse = [])
     (h : Reachable cfg s) (ht : terminal s = false) : canProgress cfg s = true :=
   (Inv.of_reachable hrf h).deadlock_free hwf hrf ht
+
+/-- The outcome is schedule-independent: without faults and with a passive callback, every
+    terminal state carries the result of the sequential reference — all digests collected (in
+    some arrival order) if no piece raises, otherwise the exception of one of the raising
+    pieces. -/
+theorem C03_outcome {cfg : Cfg} {s : State} (_hwf : wf cfg = true) (hnf : noFaults cfg = true)
+    (hcb : ∀ k d, cfg.cb k d = .pass) (h : Reachable cfg s) (ht : terminal s = true) :
+    ∃ r, result? s = some r ∧ outcomeOk cfg r = true := by
+  simp only [noFaults, Bool.and_eq_true, Option.isNone_iff_eq_none, List.isEmpty_iff] at hnf
+  obtain ⟨hi, hc⟩ := InvC.of_reachable hnf.1 hnf.2 hcb h
+  exact hc.outcome hi ht
+
+/-- Digests end up in piece order whatever the arrival order: sorting the collected indexes of a
+    returned result gives exactly the data pieces. -/
+theorem C03_sorted_result {cfg : Cfg} {s : State} {c : List Nat} (hwf : wf cfg = true)
+    (hnf : noFaults cfg = true) (hcb : ∀ k d, cfg.cb k d = .pass) (h : Reachable cfg s)
+    (hr : result? s = some (.returned c)) :
+    c.mergeSort (fun a b => decide (a ≤ b)) = hashedItems cfg := by
+  have ht : terminal s = true := by
+    unfold result? at hr; unfold terminal
+    split at hr <;> simp_all
+  obtain ⟨r, hr', hok⟩ := C03_outcome hwf hnf hcb h ht
+  rw [hr] at hr'
+  simp only [Option.some.injEq] at hr'
+  subst hr'
+  simp only [outcomeOk, Bool.and_eq_true, beq_iff_eq] at hok
+  exact hok.2
+
+/-- A returned result is complete: no piece raised and every data piece has a digest. -/
+theorem C03_returned_complete {cfg : Cfg} {s : State} {c : List Nat} (hwf : wf cfg = true)
+    (hnf : noFaults cfg = true) (hcb : ∀ k d, cfg.cb k d = .pass) (h : Reachable cfg s)
+    (hr : result? s = some (.returned c)) : badItems cfg = [] ∧ c.Perm (hashedItems cfg) := by
+  refine ⟨?_, ?_⟩
+  · have ht : terminal s = true := by
+      unfold result? at hr; unfold terminal
+      split at hr <;> simp_all
+    obtain ⟨r, hr', hok⟩ := C03_outcome hwf hnf hcb h ht
+    rw [hr] at hr'
+    simp only [Option.some.injEq] at hr'
+    subst hr'
+    simp only [outcomeOk, Bool.and_eq_true, List.isEmpty_iff] at hok
+    exact hok.1
+  · rw [← C03_sorted_result hwf hnf hcb h hr]
+    exact (List.mergeSort_perm c _).symm
+
+/-! ### the hypotheses are satisfiable: concrete schedules -/
+
+private def lM : Label := ⟨.main, false⟩
+private def lR : Label := ⟨.reader, false⟩
+private def lH : Label := ⟨.hasher 0, false⟩
+private def lJ : Label := ⟨.janitor, false⟩
+
+/-- one hasher, queue capacity 1, one data piece -/
+private def cfgOk : Cfg :=
+  { N := 1, cap := 1, items := [.data], readFault := none, refuse := [], raiseOnBad := false,
+    cb := fun _ _ => .pass }
+
+/-- one hasher, queue capacity 1, one piece that makes the callback raise -/
+private def cfgBad : Cfg :=
+  { N := 1, cap := 1, items := [.exc], readFault := none, refuse := [], raiseOnBad := true,
+    cb := fun _ _ => .pass }
+
+/-- a complete schedule of `cfgOk` -/
+private def schedOk : List Label :=
+  [lM, lM, lM, lM, lM, lM, lR, lR, lH, lH, lR, lH, lH, lH, lH, lJ, lJ, lJ, lJ, lM, lM, lM, lM, lM]
+
+/-- a complete schedule of `cfgBad` -/
+private def schedBad : List Label :=
+  [lM, lM, lM, lM, lM, lM, lR, lR, lH, lH, lR, lH, lM, lM, lM, lH, lH, lH, lM, lM, lJ, lJ, lJ, lJ, lM]
+
+/-- the state a schedule leads to -/
+private def after (cfg : Cfg) (ls : List Label) : State := (run cfg (init cfg) ls).getD (init cfg)
+
+private theorem reach_after {cfg : Cfg} {ls : List Label}
+    (h : (run cfg (init cfg) ls).isSome = true) : Reachable cfg (after cfg ls) := by
+  refine ⟨ls, ?_⟩
+  unfold after
+  cases hr : run cfg (init cfg) ls with
+  | none => simp [hr] at h
+  | some s => rfl
+
+/-- conservation and absence of internal errors are stated for every reachable state; here is a
+    reachable state with a piece in the hands of the hasher and one with a piece in each queue -/
+example : Reachable cfgOk (after cfgOk (schedOk.take 10)) ∧ held (after cfgOk (schedOk.take 10)) = [0] :=
+  ⟨reach_after (by decide), by decide⟩
+
+example : Conserved (after cfgOk (schedOk.take 10)) = true :=
+  C03_conservation (reach_after (by decide))
+
+example : Reachable cfgOk (after cfgOk (schedOk.take 12)) ∧ (after cfgOk (schedOk.take 12)).hq = [some 0] ∧
+    (after cfgOk (schedOk.take 12)).pq = [none] ∧ noInternalError (after cfgOk (schedOk.take 12)) = true :=
+  ⟨reach_after (by decide), by decide, by decide, by decide⟩
+
+/-- the hypotheses of `C03_threads_done` and `C03_outcome` hold for a run that returns … -/
+example : wf cfgOk = true ∧ noFaults cfgOk = true ∧ Reachable cfgOk (after cfgOk schedOk) ∧
+    terminal (after cfgOk schedOk) = true ∧
+    result? (after cfgOk schedOk) = some (.returned [0]) ∧ allThreadsDone (after cfgOk schedOk) = true :=
+  ⟨by decide, by decide, reach_after (by decide), by decide, by decide, by decide⟩
+
+/-- … and for a run that raises the exception of a bad piece -/
+example : wf cfgBad = true ∧ noFaults cfgBad = true ∧ Reachable cfgBad (after cfgBad schedBad) ∧
+    terminal (after cfgBad schedBad) = true ∧
+    result? (after cfgBad schedBad) = some (.raised (.item 0)) ∧
+    allThreadsDone (after cfgBad schedBad) = true :=
+  ⟨by decide, by decide, reach_after (by decide), by decide, by decide, by decide⟩
+
+/-- `outcomeOk` of these results, via the theorem -/
+example : outcomeOk cfgOk (.returned [0]) = true := by
+  obtain ⟨r, hr, hok⟩ := C03_outcome (cfg := cfgOk) (s := after cfgOk schedOk) (by decide) (by decide)
+    (fun _ _ => rfl) (reach_after (by decide)) (by decide)
+  have h2 : result? (after cfgOk schedOk) = some (Result.returned [0]) := by decide
+  rw [h2] at hr
+  exact (Option.some.inj hr) ▸ hok
+
+example : outcomeOk cfgBad (.raised (.item 0)) = true := by decide
+
+/-- the hypotheses of `C03_deadlock_free` hold in non-terminal reachable states, e.g. while main
+    is blocked on the empty hash queue and while it is blocked in `join` -/
+example : wf cfgOk = true ∧ cfgOk.refuse = [] ∧ Reachable cfgOk (after cfgOk (schedOk.take 8)) ∧
+    terminal (after cfgOk (schedOk.take 8)) = false ∧
+    (after cfgOk (schedOk.take 8)).main = .collect ∧ (after cfgOk (schedOk.take 8)).hq = [] :=
+  ⟨by decide, rfl, reach_after (by decide), by decide, by decide, by decide⟩
+
+example : wf cfgBad = true ∧ cfgBad.refuse = [] ∧ Reachable cfgBad (after cfgBad (schedBad.take 15)) ∧
+    terminal (after cfgBad (schedBad.take 15)) = false ∧
+    (after cfgBad (schedBad.take 15)).main = .joinHasher 0 0 (some (.item 0)) :=
+  ⟨by decide, rfl, reach_after (by decide), by decide, by decide⟩
 
 end Torf.C03
